@@ -44,6 +44,8 @@ def _mk(cfg, force):
     rng = np.random.default_rng(cfg["seed"])
     N = cfg["N"]
     x = rng.standard_normal(N) + cfg.get("offset", 0.0)
+    if cfg.get("gaps"):          # a record with gaps (NaN / inf samples): what a call returns must not depend on which call came first
+        x[[3, N // 2, N - 5]] = [np.nan, np.inf, -np.inf]
     data = x if cfg["mode"] == "auto" else np.vstack([x, 0.5 * np.roll(x, 2) + rng.standard_normal(N)])
     kw = dict(scheduler=cfg["sched"], order=cfg["order"], backend=cfg["backend"], olap=cfg["olap"], Kdes=cfg["Kdes"], Lmin=cfg["Lmin"], bmin=1.0)
     if force:
@@ -215,7 +217,8 @@ def run(tier):
     hs = rh.json_prints()
     cfgs = [dict(seed=5, N=700, mode="csd", sched="ltf", order=0, backend="numba", olap=0.5, Kdes=4, Lmin=8, Jdes=12, target=14),
             dict(seed=6, N=900, mode="auto", sched="lpsd", order=1, backend="numpy", olap=0.3, Kdes=3, Lmin=1, Jdes=9, target=11),
-            dict(seed=8, N=600, mode="csd", sched="ltf", order=0, backend="numpy", olap=0.5, Kdes=4, Lmin=8, Jdes=10, target=12, offset=40.0)]
+            dict(seed=8, N=600, mode="csd", sched="ltf", order=0, backend="numpy", olap=0.5, Kdes=4, Lmin=8, Jdes=10, target=12, offset=40.0),
+            dict(seed=9, N=640, mode="csd", sched="ltf", order=0, backend="numba", olap=0.5, Kdes=4, Lmin=8, Jdes=10, target=12, gaps=True)]
     if tier == "thorough":
         cfgs.append(dict(seed=7, N=800, mode="csd", sched="vectorized_ltf", order=2, backend="numba", olap=0.75, Kdes=6, Lmin=16, Jdes=15, target=16))
     items = [(c, h["force"], h["hist"]) for h in hs for c in cfgs]
